@@ -698,6 +698,10 @@ def _extras_cases():
             for pl in _PLACEMENTS['decl']:
                 for g in DECL_EXTRAS:
                     out.append(('decl', pl, g, tight))
+                    # an at-rule that ends with its block needs no ';' before the declaration that follows: the same placement with the next
+                    # declaration glued to the '}' (the last place is already written both ways)
+                    if g.startswith('@') and g.endswith('}') and pl[4]:
+                        out.append(('decl', pl[:4] + (False,), g, tight))
             for pl in _PLACEMENTS['rule']:
                 for g in RULE_EXTRAS:
                     for body in RULE_BODIES:
